@@ -1,6 +1,6 @@
 """Code-independent lemmas (loaded only under python3-vt: they build z3 terms)."""
 import importlib
-MODULES = ['l_viterbi']
+MODULES = ['l_viterbi', 'l_sums']
 def load_all():
     for m in MODULES:
         importlib.import_module('lemmas.' + m)
